@@ -13,12 +13,43 @@ import regex
 
 from ..core.data import LangData, MONTHS, WEEKDAYS, module_literal
 from ..core.effects import fold_str
-from ..core.index import iter_own_nodes
+from ..core.index import iter_own_nodes, iter_own_stmts
 from ..core.repo import AnalysisError
 
 RULE = "vocab-model"
 FLAGS = {"re.I": regex.I, "re.IGNORECASE": regex.I, "re.U": regex.U, "re.UNICODE": regex.U, "re.M": regex.M,
          "re.MULTILINE": regex.M, "re.S": regex.S, "re.DOTALL": regex.S}
+
+
+def _unroll_literal_loops(root):
+    """`for k in ("a", "b"): <body>` with a literal iterable of constants and a plain name target, written out as the bodies with the name
+    replaced by each constant (loops with break/continue/else are left alone)"""
+    import copy
+
+    class Sub(ast.NodeTransformer):
+        def __init__(self, name, const):
+            self.name, self.const = name, const
+
+        def visit_Name(self, node):
+            if node.id == self.name and isinstance(node.ctx, ast.Load):
+                return ast.copy_location(ast.Constant(value=self.const), node)
+            return node
+
+    class Unroll(ast.NodeTransformer):
+        def visit_For(self, node):
+            self.generic_visit(node)
+            if not (isinstance(node.iter, (ast.Tuple, ast.List)) and node.iter.elts and all(isinstance(e, ast.Constant) for e in node.iter.elts)
+                    and isinstance(node.target, ast.Name) and not node.orelse):
+                return node
+            if any(isinstance(x, (ast.Break, ast.Continue)) for x in ast.walk(node)) or any(
+                    isinstance(x, ast.Name) and x.id == node.target.id and isinstance(x.ctx, ast.Store) for b_ in node.body for x in ast.walk(b_)):
+                return node
+            out = []
+            for e in node.iter.elts:
+                for b_ in node.body:
+                    out.append(Sub(node.target.id, e.value).visit(copy.deepcopy(b_)))
+            return out
+    return ast.fix_missing_locations(Unroll().visit(root))
 
 
 def _flags(txt):
@@ -38,7 +69,7 @@ class Extracted:
     def __init__(self, ctx):
         self.ctx = ctx
         ix = ctx.ix
-        self.known_words = module_literal(ctx.repo, "dateparser/languages/dictionary.py", "KNOWN_WORD_TOKENS")
+        self.known_words = self._dict_const("KNOWN_WORD_TOKENS")
         self.always_keep = self._dict_const("ALWAYS_KEEP_TOKENS")
         self.parser_known = self._dict_const("PARSER_KNOWN_TOKENS")
         self.dict_order = self._dictionary_order()
@@ -78,52 +109,131 @@ class Extracted:
         return eval_literal(node, env)
 
     def _dictionary_order(self):
-        """the order in which Dictionary.__init__ fills the dict (later wins); recognised by role, not by local names"""
-        from ..core.ctx import ancestors, conjuncts, enclosing_tests
+        """the order in which Dictionary.__init__ fills the dict (later wins).  Every `<dict>.update(<pairs>)` is read as (where the keys come
+        from, whether they are lower-cased, what each key maps to) - whatever way the pairs are spelled (zip_longest with a fill value,
+        dict.fromkeys, a dict / generator comprehension, zip of a list with itself) - and must be one of the six fills the model knows"""
+        import copy
+        from ..core.ctx import ancestors, conjuncts, enclosing_tests, fresh_copy
         f = self.ctx.ix.func("dateparser.languages.dictionary:Dictionary.__init__")
+        root = _unroll_literal_loops(fresh_copy(f.node))
         # the local that ends up in self._dictionary
         dname = None
-        for n in iter_own_nodes(f.node):
+        for n in iter_own_nodes(root):
             if isinstance(n, ast.Assign) and ast.unparse(n.targets[0]) == "self._dictionary" and isinstance(n.value, ast.Name):
                 dname = n.value.id
         if dname is None:
             raise AnalysisError(RULE, "Dictionary.__init__: no `self._dictionary = <local>`")
-        rel_names = {n.targets[0].id for n in iter_own_nodes(f.node) if isinstance(n, ast.Assign) and isinstance(n.targets[0], ast.Name)
+        rel_names = {n.targets[0].id for n in iter_own_nodes(root) if isinstance(n, ast.Assign) and isinstance(n.targets[0], ast.Name)
                      and "'relative-type'" in ast.unparse(n.value) and "regex" not in ast.unparse(n.value)}
+        lower_names = {n.targets[0].id for n in iter_own_nodes(root) if isinstance(n, ast.Assign) and len(n.targets) == 1
+                       and isinstance(n.targets[0], ast.Name) and ast.unparse(n.value) in ("methodcaller('lower')", "str.lower")}
+
+        def is_lower_fn(fn):
+            return ast.unparse(fn) in ("methodcaller('lower')", "str.lower", "operator.methodcaller('lower')") or (
+                isinstance(fn, ast.Name) and fn.id in lower_names)
+
+        def elt_transform(e, var):
+            if isinstance(e, ast.Name) and e.id == var:
+                return "id"
+            if ast.unparse(e) == var + ".lower()" or (isinstance(e, ast.Call) and len(e.args) == 1 and not e.keywords and isinstance(e.args[0], ast.Name)
+                                                     and e.args[0].id == var and is_lower_fn(e.func)):
+                return "lower"
+            return None
+
+        def local_value(name, at):
+            """the value last bound to a local before statement `at` in the same block"""
+            for parent in ast.walk(root):
+                for fld in ("body", "orelse"):
+                    blk = getattr(parent, fld, None)
+                    if isinstance(blk, list) and at in blk:
+                        for st in reversed(blk[:blk.index(at)]):
+                            if isinstance(st, ast.Assign) and len(st.targets) == 1 and isinstance(st.targets[0], ast.Name) and st.targets[0].id == name:
+                                return st.value
+            return None
+
+        def keys(e, at):
+            if isinstance(e, ast.Name):
+                v = local_value(e.id, at)
+                if v is not None:
+                    return keys(v, at)
+            if isinstance(e, ast.Call) and ast.unparse(e.func) == "map" and len(e.args) == 2 and is_lower_fn(e.args[0]):
+                return "lower", ast.unparse(e.args[1])
+            if isinstance(e, (ast.GeneratorExp, ast.ListComp)) and len(e.generators) == 1 and not e.generators[0].ifs and isinstance(e.generators[0].target, ast.Name):
+                tr = elt_transform(e.elt, e.generators[0].target.id)
+                if tr:
+                    return tr, ast.unparse(e.generators[0].iter)
+            return "id", ast.unparse(e)
+
+        def pairs(arg, at):
+            """(transform, source, value) of the pairs handed to update(); value is source text, 'None' or '<element>'"""
+            if isinstance(arg, ast.Call):
+                fn = ast.unparse(arg.func)
+                kw = {k.arg: k.value for k in arg.keywords}
+                if fn in ("zip_longest", "itertools.zip_longest") and len(arg.args) == 2 and ast.unparse(arg.args[1]) == "[]" and set(kw) == {"fillvalue"}:
+                    return keys(arg.args[0], at) + (ast.unparse(kw["fillvalue"]),)
+                if fn in ("zip_longest", "itertools.zip_longest", "zip") and len(arg.args) == 2 and not kw:
+                    tr, src = keys(arg.args[0], at)
+                    if keys(arg.args[1], at) == ("id", src):
+                        return tr, src, "<element>"
+                if fn == "dict.fromkeys" and len(arg.args) in (1, 2) and not kw:
+                    return keys(arg.args[0], at) + (ast.unparse(arg.args[1]) if len(arg.args) == 2 else "None",)
+            comp = None
+            if isinstance(arg, ast.DictComp):
+                comp = (arg.key, arg.value, arg.generators)
+            elif isinstance(arg, (ast.GeneratorExp, ast.ListComp)) and isinstance(arg.elt, ast.Tuple) and len(arg.elt.elts) == 2:
+                comp = (arg.elt.elts[0], arg.elt.elts[1], arg.generators)
+            if comp and len(comp[2]) == 1 and not comp[2][0].ifs and isinstance(comp[2][0].target, ast.Name):
+                var = comp[2][0].target.id
+                tr = elt_transform(comp[0], var)
+                uses = {x.id for x in ast.walk(comp[1]) if isinstance(x, ast.Name)}
+                if tr and (isinstance(comp[1], ast.Name) and comp[1].id == var):
+                    return tr, ast.unparse(comp[2][0].iter), "<element>"
+                if tr and var not in uses:
+                    return tr, ast.unparse(comp[2][0].iter), ast.unparse(comp[1])
+            return None
+
         order = []
-        for n in iter_own_nodes(f.node):
+        for st in iter_own_stmts(root.body):
+            n = st.value if isinstance(st, ast.Expr) else None
             if not (isinstance(n, ast.Call) and isinstance(n.func, ast.Attribute) and n.func.attr == "update"
                     and isinstance(n.func.value, ast.Name) and n.func.value.id == dname):
                 continue
             t = " ".join(ast.unparse(n).split())
-            facts = {ast.unparse(a_) for test, pol in enclosing_tests(f.node, n) for a_, p in conjuncts(test, pol) if p}
-            loops = [ast.unparse(a_.iter) for a_ in ancestors(f.node, n) if isinstance(a_, ast.For)]
-            role = None
-            if any(x.startswith("'skip' in") for x in facts):
-                role = "skip"
-            elif any(x.startswith("'pertain' in") for x in facts):
-                role = "pertain"
-            elif "KNOWN_WORD_TOKENS" in loops:
-                role = "known"
-            elif "ALWAYS_KEEP_TOKENS" in t:
-                role = "always_keep"
-            elif "PARSER_KNOWN_TOKENS" in t:
-                role = "parser_known"
-            elif any(l.endswith(".items()") and l[:-8] in rel_names for l in loops):
-                role = "relative"
+            d = pairs(n.args[0], st) if len(n.args) == 1 and not n.keywords else None
+            if d is None:
+                raise AnalysisError(RULE, "Dictionary.__init__: unrecognised update of the dictionary: %s" % t[:80])
+            tr, src, val = d
+            facts = {ast.unparse(a_) for test, pol in enclosing_tests(root, n) for a_, p in conjuncts(test, pol) if p}
+            loops = [a_ for a_ in ancestors(root, n) if isinstance(a_, ast.For)]
+            want = None
+            if src == "locale_info['skip']" and "'skip' in locale_info" in facts:
+                role, want = "skip", ("lower", "None")
+            elif src == "locale_info['pertain']" and "'pertain' in locale_info" in facts:
+                role, want = "pertain", ("lower", "None")
+            elif src == "ALWAYS_KEEP_TOKENS":
+                role, want = "always_keep", ("id", "<element>")
+            elif src == "PARSER_KNOWN_TOKENS":
+                role, want = "parser_known", ("lower", "<element>")
+            else:
+                role = None
+                for l_ in loops:
+                    if ast.unparse(l_.iter) == "KNOWN_WORD_TOKENS" and isinstance(l_.target, ast.Name) and src == "locale_info[%s]" % l_.target.id \
+                            and "%s in locale_info" % l_.target.id in facts:
+                        role, want = "known", ("lower", l_.target.id)
+                    it = ast.unparse(l_.iter)
+                    if it.endswith(".items()") and it[:-8] in rel_names and isinstance(l_.target, ast.Tuple) and len(l_.target.elts) == 2 \
+                            and all(isinstance(e_, ast.Name) for e_ in l_.target.elts) and src == l_.target.elts[1].id:
+                        role, want = "relative", ("lower", l_.target.elts[0].id)
             if role is None:
                 raise AnalysisError(RULE, "Dictionary.__init__: unrecognised update of the dictionary: %s" % t[:80])
-            if role in ("skip", "pertain") and "fillvalue=None" not in t:
-                raise AnalysisError(RULE, "Dictionary.__init__: %s words no longer map to None" % role)
+            if (tr, val) != want:
+                if role in ("skip", "pertain") and val != "None":
+                    raise AnalysisError(RULE, "Dictionary.__init__: %s words no longer map to None" % role)
+                raise AnalysisError(RULE, "Dictionary.__init__: the %s fill changed: keys %s, values %s (the model has keys %s, values %s)"
+                                    % (role, tr, val, want[0], want[1]))
             order.append(role)
         if sorted(order) != sorted(["skip", "pertain", "known", "always_keep", "parser_known", "relative"]):
             raise AnalysisError(RULE, "Dictionary.__init__ update sequence changed: %s" % order)
-        t = " ".join(ast.unparse(f.node).split())
-        import re as _re
-        if not _re.search(r"for (\w+) in KNOWN_WORD_TOKENS: if \1 in locale_info: (\w+) = map\(methodcaller\('lower'\), locale_info\[\1\]\) %s\.update\(zip_longest\(\2, \[\], fillvalue=\1\)\)" % dname, t):
-            raise AnalysisError(RULE, "Dictionary.__init__: known-word loop changed shape")
-        if not _re.search(r"for (\w+), (\w+) in (\w+)\.items\(\): (\w+) = map\(methodcaller\('lower'\), \2\) %s\.update\(zip_longest\(\4, \[\], fillvalue=\1\)\)" % dname, t):
-            raise AnalysisError(RULE, "Dictionary.__init__: relative-type loop changed shape")
         return order
 
     def _check_normalize_model(self):
